@@ -6,7 +6,7 @@ from __future__ import annotations
 import asyncio
 import logging
 from collections.abc import Callable, Coroutine
-from datetime import datetime as dt
+from itertools import count
 from queue import Empty, Full, PriorityQueue
 from threading import Lock
 from typing import TYPE_CHECKING, Any, Final, TypeAlias
@@ -42,7 +42,7 @@ _LOGGER = logging.getLogger(__name__)
 #######################################################################################
 
 _FutureT: TypeAlias = asyncio.Future[Packet]
-_QueueEntryT: TypeAlias = tuple[Priority, dt, Command, QosParams, _FutureT]
+_QueueEntryT: TypeAlias = tuple[Priority, int, Command, QosParams, _FutureT]
 
 
 class ProtocolContext:
@@ -70,6 +70,7 @@ class ProtocolContext:
         self._que: PriorityQueue[_QueueEntryT] = PriorityQueue(
             maxsize=self.max_buffer_size
         )
+        self._que_seqn = count()  # FIFO within a priority (wall-clock time can tie/step back)
 
         self._expiry_timer: asyncio.Task[None] | None = None
         self._multiplier = 0
@@ -331,7 +332,7 @@ class ProtocolContext:
 
         fut: _FutureT = self._loop.create_future()
         try:
-            self._que.put_nowait((priority, dt.now(), cmd, qos, fut))
+            self._que.put_nowait((priority, next(self._que_seqn), cmd, qos, fut))
         except Full as err:
             fut.cancel()
             raise exc.ProtocolSendFailed(f"{self}: Send buffer overflow") from err
